@@ -706,7 +706,8 @@ impl Printer {
                     }
                     CallStyle::Prime => {
                         // a prime call absorbs everything up to the end of the line: always wrapped
-                        let a = args.iter().map(|x| self.expr(x, if matches!(x, Expr::Un(..)) { 8 } else { 1 })).collect::<Vec<_>>().join(", ");
+                        let sep = if self.opts.break_brackets { ",\n" } else { ", " };
+                        let a = args.iter().map(|x| self.expr(x, if matches!(x, Expr::Un(..)) { 8 } else { 1 })).collect::<Vec<_>>().join(sep);
                         if a.is_empty() {
                             (format!("{}'", self.expr(f, 8)), 8)
                         } else {
@@ -718,7 +719,8 @@ impl Printer {
                         (format!("({} -> {}({}))", self.expr(&args[0], 8), self.expr(f, 8), a), 9)
                     }
                     CallStyle::ArrowPrime => {
-                        let a = args[1..].iter().map(|x| self.expr(x, if matches!(x, Expr::Un(..)) { 8 } else { 1 })).collect::<Vec<_>>().join(", ");
+                        let sep = if self.opts.break_brackets { ",\n" } else { ", " };
+                        let a = args[1..].iter().map(|x| self.expr(x, if matches!(x, Expr::Un(..)) { 8 } else { 1 })).collect::<Vec<_>>().join(sep);
                         if a.is_empty() {
                             (format!("({} -> {}')", self.expr(&args[0], 8), self.expr(f, 8)), 9)
                         } else {
